@@ -341,6 +341,12 @@ def apply_rewrites(body, rel, base_line, log):
     # R12: std's two-parameter `Result<T, E>` (the assembled file has the crate's one-parameter alias `Result<T>` in scope)
     body = qualify_std_result(body, note)
 
+    # R6: `&EMPTY_RULES` (a lazy_static: statics behind macros are unsupported) -> boundary fn `empty_rules()`
+    def r6(m):
+        note('R6', m.start(), m.group(0))
+        return 'empty_rules()'
+    body = re.sub(r'&\s*EMPTY_RULES\b', r6, body)
+
     # R17: `X.iter().any(` -> `vec_iter_any(&X, `
     def r17(m):
         note('R17', m.start(), m.group(0))
